@@ -17,7 +17,7 @@ from ..oracles import h5model as hm
 PID = "C10"
 LEVEL = "exploration"
 RULE = ("coordinates: tracer x ice {Specialized x (Antarctic, Arasim, Greenland), Basic x Antarctic, Uniform x UniformIce, Layered x (U|U, A|A)}, "
-        "signal model {ARZ, AVZ, ZHS}, generator {List 1 particle, List 3 particles incl. a below-threshold weight, Cylindrical, Rectangular "
+        "signal model {ARZ, AVZ, ZHS}, generator {List 1 particle, List 3 particles incl. a below-threshold weight, List with a particle in the shadow zone ahead of one that is not, Cylindrical, Rectangular "
         "(owned randomness), FileGenerator}, offcone_max {None, 40, 0.5, 0}, weight_min {None, 0.1, (0.5,0.25), 0}, attenuation_interpolation {0.1, None}, "
         "writer {none, recording stub, real HDF5}, triggers {None, function, dict, dict whose global coincidence fails while a component fires}, antenna set {2, 1, 3 antennas incl. one in the air}; all "
         "configurations within deviation bound 2 (quick) / 3 (thorough) of the base; two consecutive events per configuration; "
@@ -30,7 +30,7 @@ CHUNK = 2
 COORDS = {
     "tracer": ["spec_antarctic", "spec_arasim", "spec_greenland", "basic_antarctic", "uniform", "layered_uu", "layered_aa"],
     "signal": ["ARZ", "AVZ", "ZHS"],
-    "gen": ["list1", "list3", "cyl", "box", "file"],
+    "gen": ["list1", "list3", "cyl", "box", "file", "list_shadow"],
     "offcone": [None, 40, 0.5, 0],
     "weight": [None, 0.1, (0.5, 0.25), 0],
     "interp": [0.1, None],
@@ -131,6 +131,12 @@ def _generator(name, tmp, source):
         p2.direction = np.cos(np.radians(11.0)) * e + np.sin(np.radians(11.0)) * perp
         return generation.ListGenerator([Event([_particle(0, (0.9, 0.8)), _particle(1, (0.2, 0.3)), p2]),
                                          Event(_particle(1, (0.6, 0.9)))])
+    if name == "list_shadow":
+        # first particle: shallow and 3 km away -- in gradient-index ice no ray reaches the antennas from there; the second
+        # particle (another vertex) does reach them.  What an antenna gets from one particle says nothing about the next.
+        far = _particle(1, (0.9, 0.9))
+        far.vertex = np.array([3000.0, 0.0, -30.0])
+        return generation.ListGenerator([Event([far, _particle(0, (0.9, 0.8))]), Event([_particle(2, (0.8, 0.8)), far])])
     class M(Interaction):
         def choose_interaction(self):
             return self.Type.charged_current
